@@ -69,6 +69,11 @@ ob("O-C08-big", ["C08"], J, "c08_big_points", "points: a big integer against +/-
 ob("O-C09-big-obs", ["C09", "C10"], J, "c09_big_observers", "points: is_int / as_isize / as_f64 / as_pos_usize / length on big integers 5, -1, 0 (zero is not negative), 2^63, -2^63-1, 2^70 agree with the machine-integer answers", [NUM + "Num::as_isize", NUM + "Num::as_pos_usize", NUM + "Num::as_f64", NUM + "Num::length"], label="point", kind="point", composes_dependency=True)
 ob("O-C09-big-arith", ["C09"], J, "c09_big_arith", "points: MAX+1, MIN-1, MIN+(-1), -MIN, MAX-(-1) take the exact big-integer value through the real fall-back; Int-BigInt, BigInt-Int, Int+BigInt, BigInt+Int, BigInt-BigInt, -BigInt with the operands in the order written (num-bigint executed on concrete operands)", [NUM + "Num::add", NUM + "Num::sub", NUM + "Num::neg", NUM + "int_or_big"], label="point", kind="point", composes_dependency=True, stubs=["_addcarry_u64", "_subborrow_u64"])
 
+# ------------------------------------------------------------------------------------ C07 (writer half)
+for i, h in enumerate("0123456789abcdef"):
+    quick = h in "0127"  # control characters, `"`, `\\` (0x5c is in block 5 -> thorough), DEL
+    ob(f"O-C07-byte-{h}", ["C07"], J, f"c07_write_byte_{h}", f"write_byte! (with the fall-backs of write_utf8! / write_bytes!) writes each byte 0x{h}0..=0x{h}f inside a JSON string exactly as RFC 8259 section 7 prescribes (two-character escapes, \\u00XX for other control characters, the character itself otherwise; byte strings: \\xXX outside printable ASCII)", ["jaq-json/src/write.rs::write_byte!", "jaq-json/src/write.rs::write_utf8! (fall-back expression)", "jaq-json/src/write.rs::write_bytes! (fall-back expression)"], label="complete", kind="lemma", bound="", tier="quick" if quick else "thorough", timeout=900)
+
 # ------------------------------------------------------------------------------------ jaq-std (trait-contract instances, AnyVal)
 STD = "jaq-std/src/lib.rs::"
 TIME = "jaq-std/src/time.rs::"
@@ -118,6 +123,9 @@ ob("O-C03-lazy", ["C03"], C, "c03_lazy", "filter::lazy(f): f does not run before
 ob("O-C04-stack-break", ["C04", "C03"], C, "c04_stack_break", "Stack::next (Break callback): yields the next element of the topmost non-empty iterator, pops only iterators above it, and does not keep an iterator whose size_hint says exhausted", [CORE + "stack.rs::Stack::next"], label="bounded", bound="two iterators of length <= 2")
 ob("O-C04-stack-tail", ["C04"], C, "c04_stack_tailcall_height", "Stack::next on a chain of tail calls (every stream yields exactly one Continue item): each exhausted caller is dropped before its callee is pushed, so the height stays <= 1", [CORE + "stack.rs::Stack::next"], label="bounded", bound="a chain of 3 tail calls")
 ob("O-C04-stack-growth", ["C04"], C, "c04_stack_growth", "Stack::next growth bound: height after <= height before + number of Continue answers; a one-element stream is gone once it has yielded", [CORE + "stack.rs::Stack::next"], label="bounded", bound="bottom stream of length 0..=2 x the first two callback answers (enumerated concretely)")
+for shape, what in (("index", "`.[k]`"), ("range", "`.[a:b]`")):
+    for o, on in (("ess", "without `?`"), ("opt", "with `?`")):
+        ob(f"O-C02-part-{shape}-{o}", ["C02"], C, f"c02_part_{shape}_{o}", f"one path step {what} {on}, for every value and key of an abstract container type that satisfies the ValT coherence between index / values / key_values / range: Part::paths yields the same values in the same order as Part::run, each with the input path extended by exactly one key k such that `v | .[k]` is the yielded value (getpath(path(p)) reproduces p), and Part::update calls the updating accessor of the same kind with the same arguments and the same `?` mark", [CORE + "path.rs::Part::run", CORE + "path.rs::Part::paths", CORE + "path.rs::Part::update"], kind="trait-contract")
 ob("O-C02-opt", ["C02"], C, "c02_opt_fail", "Opt::fail: Optional -> Ok(x) without running f, Essential -> Err(f(x))", [CORE + "path.rs::Opt::fail"], kind="contract")
 
 OBS.append(dict(id="O-C01-env", properties=["C01"], backend="verus", spec="verus/rc_list.spec.json", kind="verus", label="complete", tier="quick",
@@ -207,6 +215,18 @@ CFG = {
             "explanation": "Kani checks, on every path of every harness, arithmetic overflow, out-of-bounds indexing, slicing off bounds, unwrap / expect on None / Err, unreachable!, panic!, assert! and division by zero. 'No input can crash' is therefore the implicit postcondition of every function put under contract for the other properties, called on all arguments its callers can construct: the position arithmetic and integer / float operators of jaq-json, Num::length, the generic kernels of jaq-std (implode, explode, round, try_as_i32, the conversions around jiff) over the abstract value type, the CBOR integer arms. Complete obligations only are counted as proved; bounded ones are listed separately.",
             "not_decided": "panics inside dependencies on hostile input (YAML / XML / TOML / regex parsers), the panic!() arms that rely on third-party parser invariants, the lexer, parser and compiler on arbitrary filter text, diagnostics rendering and span arithmetic, the product of all natives x all arguments, Val-level dispatch (index_opt, range, map_index, map_range, arithmetic on containers and strings), skip_take_chars / bytes_splice, CSV / TSV readers, stack / memory exhaustion (excepted by the property)",
             "assumptions": ["third-party callees are stubbed or excluded as stated per obligation"],
+        },
+        "C02": {
+            "level": "other",
+            "explanation": "The three evaluators bottom out in Part::{run, paths, update}. These are generic over the value type and are verified as trait-contract instances with an abstract container (RecVal: a value is a tag, children / slices / range keys are injective functions of the tags, coherent as ValT documents): for each shape of path step and every tag, paths and run yield the same values in the same order, every yielded path is the input path plus exactly one key that indexes to the yielded value, and update addresses the same accessor with the same arguments and `?` mark. Complete per registered shape (`.[k]`, `.[a:b]`, each with and without `?`) over all tags.",
+            "not_decided": "that Id::paths and Id::update select like Id::run for pipes, commas, bindings, conditionals, folds, `//`, `..`, first / last / limit / skip, natives and definitions; multi-step paths (path::run / path::update recursion), the iteration step `.[]` and the half-open slices `.[a:]` / `.[:b]` (their harnesses exist but are unstable: 83 s in one run, > 600 s in others; not registered), that jaq_json::Val satisfies the coherence assumed of the container (Val-level harnesses do not fit CBMC), the defs.jq derived filters (paths, getpath, del, to_entries ...), assignment-operator desugaring",
+            "assumptions": ["the abstract container's index / values / key_values / range are mutually coherent, as the ValT trait documents; nothing is assumed about which concrete type it is"],
+        },
+        "C07": {
+            "level": "other",
+            "explanation": "The writer half of the string round trip is finite: for each of the 256 byte values the real write_byte! macro (with the two fall-back expressions its callers pass) is run into a recording fmt::Write and compared with the escape RFC 8259 section 7 prescribes. Exhaustive over u8 in the thorough tier (16 harnesses of 16 bytes); the quick tier covers the control characters, the quote, and DEL / the first non-ASCII block. This decides 'what jaq writes for a string byte is what RFC 8259 says'; it does not decide the round trip.",
+            "not_decided": "the reader (hifijson lexer, parse_string), hence print-then-parse = id itself; the splitting logic of write_utf8! around special bytes; shortest-round-trip float printing (ryu), big-integer and decimal literals, key order (indexmap), nesting, indentation / sort_keys, the CLI path, agreement with an independent RFC 8259 parser",
+            "assumptions": ["core::fmt (format_args!, LowerHex, char::escape_default) is executed as compiled on concrete bytes"],
         },
         "C12": {
             "level": "other",
